@@ -265,7 +265,7 @@ def run(ctx):
         for c in mp:
             for cb in closure_args_of_call(F, b, c):
                 e = ExprBuilder(cb).place(0, ()).strip()
-                result_bbox = e.kind == 'place' and e.fields[-1:] == ('bbox',)
+                result_bbox = result_bbox or (e.kind == 'place' and e.fields[-1:] == ('bbox',))
     ctx.check(ok and result_bbox, R, b, 'result=map(bbox)', '', 'the result is not the bbox references of the '
               'candidates that were not excluded')
     # ---------------- R14.5 clone drops the vertex cache
@@ -284,6 +284,10 @@ def elem_role(e):
         st_ = r.args[0]
         if st_.kind == 'bin' and st_.name == 'Add' and st_.args[1].const_value() == '1':
             return 'inner'
+    if any(x.kind == 'call' and x.name.rsplit('::', 1)[-1] == 'index' and len(x.args) == 2 and
+           x.args[1].strip().kind == 'agg' and any(t_ in x.args[1].strip().name for t_ in (
+               'RangeTo', 'RangeInclusive', 'Range::Range')) for x in e.walk()):
+        return None        # a prefix / sub-range of the candidates: neither "every candidate" nor "the suffix"
     if e.has_call('enumerate'):
         return 'outer'
     for r in ranges:
